@@ -441,7 +441,7 @@ func TestC10LowStack(t *testing.T) {
 	st := vstat.For(propC10)
 	defer debug.SetMaxStack(debug.SetMaxStack(lowStack))
 	rapid.Check(t, func(t *rapid.T) {
-		c := genPinnedRun(t, vstat.Pick(8000, 10000), vstat.Pick(12000, 30000))
+		c := genPinnedRun(t, vstat.Pick(8000, 10000), vstat.Pick(12000, 20000))
 		drop := inFlightFile("TestC10LowStack", c)
 		info, v := Run(c, false)
 		drop()
